@@ -110,6 +110,33 @@ CHECKS.update({
     },
 })
 
+CHECKS.update({
+    "C10": {
+        "technique": "static analysis: enumeration and classification of every write reaching quick_xml::Writer (escaping vs raw sinks) over MIR, origin slices for element/attribute names and text constructors, audited raw-site table, dominance for delimiter placement",
+        "text": "Decides the escaping discipline on all paths of every writer body: names are static; every text-valued field reaches an escaping sink (BytesText::new / (&str,&str) attribute) except the three documented verbatim-XML sites and the numeric rollback attribute; no from_escaped / write_event / byte-pair attributes; delimiter appended once after the document and UTF-8 validated. NOT decided: well-formedness of caller-supplied XML fragments, a fragment containing the delimiter (inherent to RFC 6242 §4.3).",
+        "note": "Trusts quick-xml 0.31 escaping of < > & ' \" in BytesText::new and Attribute::from((&str,&str)).",
+        "design_ref": "DESIGN.md §3 C10",
+    },
+    "C13": {
+        "technique": "static analysis: sibling-consistency lint over all 23 reader loops (THIR arm tables: namespace/local-name matching, comment and declaration arms, Start/Empty symmetry) + MIR dataflow from read_text to token sinks (trim)",
+        "text": "Decides, per rewrite named by the property, the syntactic obligation on every reader loop: namespace-resolved local-name matching (prefix independence), comment skipping, declaration skipping at document level, Start/Empty symmetry per element (with a justification table for spellings that are rejected either way or lie outside the grammars), trimming of token-valued text. The property as stated does not hold: 14 empty-element-form asymmetries are listed as known findings (all reproduced); comment/declaration/whitespace defects were repaired. NOT decided: attribute order/quoting and inter-element whitespace (quick-xml tokenizer, assumed).",
+        "note": "Trusts quick-xml 0.31 event delivery and read_text semantics (raw slice).",
+        "design_ref": "DESIGN.md §3 C13",
+    },
+    "C14": {
+        "technique": "static analysis: panic-capable site inventory over the input-reachable workspace call graph (MIR Assert terminators, unwrap/expect/index/split sites) against an audited table with re-verified discharges; cycle-without-consumption check on reader loops; catch-all arm and UTF-8 validation checks",
+        "text": "Reduces totality over inputs to two source-level facts and decides them: every panic-capable site reachable from the 70+ input entry points is accounted for (by type, by a C06 invariant, constant arithmetic, or trusted macro internals), and every reader loop consumes input on every path round the loop with a catch-all error arm; UTF-8 is validated before parsing. NOT decided: panics/loops inside quick-xml, iri-string, generic-ip; memory exhaustion; EOF hang (C07).",
+        "note": "Call graph over-approximates trait dispatch inside the workspace; dependencies are opaque.",
+        "design_ref": "DESIGN.md §3 C14",
+    },
+    "C16": {
+        "technique": "static analysis: THIR arm-effect analysis of the attribute scan (order independence), control-dependence of Candidate construction, call-chain origin of expression and name (unescape), constant tables",
+        "text": "Decides: the attribute scan's result does not depend on attribute order or duplication; a statement is selected only with a parseable annotation, default reject action, a name, and no other content; expression and name are the configuration's (unescaped); candidates come from the running datastore with the policy-statement subtree filter, installed ones from the ephemeral candidate datastore; duplicate names are an error. NOT decided: MpFilterExpr's grammar, Junos' rendering of annotations.",
+        "note": "Trusts quick-xml attribute unescaping and the rpsl parser.",
+        "design_ref": "DESIGN.md §3 C16",
+    },
+})
+
 NOT_APPLICABLE = {
     "C11": "Equality between a computed prefix-range set and the RPSL denotation over arbitrary IRR data: run-time values in three external crates (rpsl, irrc, generic-ip); no structural necessary condition in this repository's source that is not a frozen copy of today's query plan.",
 }
